@@ -165,6 +165,7 @@ type resumeWorld struct {
 	live    map[string]bool
 	types   map[string]string
 	nextEv  int
+	paged   bool
 }
 
 func (w *resumeWorld) emit(m map[string]any) {
@@ -191,7 +192,7 @@ func (w *resumeWorld) call(f func()) (hung bool) {
 
 func (w *resumeWorld) restart() {
 	w.emit(map[string]any{"e": "restart"})
-	w.bus = eb.New(eb.WithStore(w.asStore))
+	w.bus = w.newBus()
 	w.live = map[string]bool{}
 	w.store.mu.Lock()
 	w.store.crashed = false
@@ -231,7 +232,17 @@ func (w *resumeWorld) subscribe(sub string) {
 	})
 }
 
+// newBus: in a "-paged" world the store does not stream and bus.Replay pages through it two events at a time
+func (w *resumeWorld) newBus() *eb.EventBus {
+	if w.paged {
+		return eb.New(eb.WithStore(w.asStore), eb.WithReplayBatchSize(2))
+	}
+	return eb.New(eb.WithStore(w.asStore))
+}
+
 func newResumeWorld(kind, dir string) (*resumeWorld, func(), error) {
+	paged := strings.HasSuffix(kind, "-paged")
+	kind = strings.TrimSuffix(kind, "-paged")
 	env, err := storedrv.NewEnv(kind, dir, 1, 0)
 	if err != nil {
 		return nil, nil, err
@@ -241,13 +252,14 @@ func newResumeWorld(kind, dir string) (*resumeWorld, func(), error) {
 	if _, ok := env.Stores[0].(eb.SubscriptionStore); !ok {
 		w.store.subInner = eb.NewMemoryStore()
 	}
-	if _, ok := env.Stores[0].(eb.EventStoreStreamer); ok {
+	w.paged = paged
+	if _, ok := env.Stores[0].(eb.EventStoreStreamer); ok && !paged {
 		w.asStore = rStreamStore{w.store}
 	} else {
 		w.asStore = w.store
 	}
 	w.emit(map[string]any{"e": "reset"})
-	w.bus = eb.New(eb.WithStore(w.asStore))
+	w.bus = w.newBus()
 	return w, env.Close, nil
 }
 
@@ -432,7 +444,7 @@ func probeDurable(r *core.Run) {
 func c12(r *core.Run) {
 	r.Rule = "random histories of publishes of two event types, SubscribeWithReplay of three subscription ids, restarts (a new bus on the same stores), crashes after an arbitrary store operation (runtime.Goexit in the store wrapper) and one-shot failures of Append / SaveOffset / LoadOffset / Read, on the real bus over memory and SQLite stores; every store operation (with the log position its offset denotes) and every delivery is recorded and validated against ResumeTrace.tla (in order, once per run, redelivery only of unsaved positions, saved offset monotone, nothing missing once the subscription is live); a case is one history"
 	r.MustHold(core.TLCOpts{Module: "Resume", Timeout: 20 * time.Minute})
-	kinds := []string{"memory", "sqlite-file"}
+	kinds := []string{"memory", "sqlite-file", "memory-paged"}
 	c12Runs(r, "c12-calm", r.Pick(150, 2500), 24, false, 1201, kinds)
 	c12Runs(r, "c12-faults", r.Pick(250, 4000), 30, true, 1202, kinds)
 	r.MustFail(core.TLCOpts{Module: "Resume", Config: "Resume_asis_gap.cfg"}, "NoLoss")
